@@ -180,7 +180,19 @@ func (e *symEval) evalPaths(fn *ssa.Function, pre map[string]symVal) []symOutcom
 				hist[f] = append(hist[f], val(ef.Args[1]))
 				continue
 			}
-			events = append(events, val(ef).s)
+			// a call of another iterator's First()/Last() is that iterator's Begin();Next() / End();Prev() (its own R14first
+			// obligation): spelled that way on both sides
+			evs := val(ef).s
+			if ef.Op == "do" && (strings.HasSuffix(ef.Leaf, "Iterator).First") || strings.HasSuffix(ef.Leaf, "Iterator).Last")) {
+				a, b := "Begin", "Next"
+				if strings.HasSuffix(ef.Leaf, ").Last") {
+					a, b = "End", "Prev"
+				}
+				old := ef.Leaf[strings.LastIndex(ef.Leaf, ")."):]
+				events = append(events, strings.Replace(evs, old+" ", ")."+a+" ", 1), strings.Replace(evs, old+" ", ")."+b+" ", 1))
+				continue
+			}
+			events = append(events, evs)
 		}
 		if failed {
 			e.why = "a field version could not be dated"
@@ -279,6 +291,7 @@ func (e *symEval) evalPaths(fn *ssa.Function, pre map[string]symVal) []symOutcom
 				}
 			}
 		}
+		res = strings.NewReplacer("Iterator).First ", "Iterator).Next ", "Iterator).Last ", "Iterator).Prev ").Replace(res)
 		outs = append(outs, symOutcome{cond: cond, fields: fields, events: events, result: res})
 	}
 	return outs
